@@ -10,15 +10,18 @@ use wow_m2::anim::*;
 use wow_m2::common::{C3Vector, Quaternion};
 use wow_m2::M2Version;
 
-pub struct AnimSpace;
+pub struct AnimSpace {
+    radices: [u64; 5],
+}
 impl AnimSpace {
-    pub fn new(_t: Tier) -> Self {
-        AnimSpace
+    pub fn new(t: Tier) -> Self {
+        // thorough: counts {0, 1, 3, 2, 17} for sections and bones, keys {0, 1, 3, 2, 300}
+        AnimSpace { radices: t.pick([2, 3, 3, 8, 3], [2, 5, 5, 8, 5]) }
     }
 }
 const FORMATS: [&str; 2] = ["legacy", "modern"];
-const COUNTS: [usize; 3] = [0, 1, 3];
-const RADICES: [u64; 5] = [2, 3, 3, 8, 3];
+const COUNTS: [usize; 5] = [0, 1, 3, 2, 17];
+const KEYS: [usize; 5] = [0, 1, 3, 2, 300];
 
 fn bone(j: usize, mask: u64, keys: usize) -> AnimBoneAnimation {
     let ts: Vec<u32> = (0..keys).map(|k| [0u32, 33, 0xFFFF_FFFF][k % 3]).collect();
@@ -37,12 +40,12 @@ fn bone(j: usize, mask: u64, keys: usize) -> AnimBoneAnimation {
 }
 
 fn make(d: &[u64]) -> AnimFile {
-    let (ns, nb, mask, keys) = (COUNTS[d[1] as usize], COUNTS[d[2] as usize], d[3], COUNTS[d[4] as usize]);
+    let (ns, nb, mask, keys) = (COUNTS[d[1] as usize], COUNTS[d[2] as usize], d[3], KEYS[d[4] as usize]);
     let sections: Vec<AnimSection> = (0..ns)
         .map(|s| AnimSection {
-            header: AnimSectionHeader { magic: *b"AFID", id: [1u32, 60, 0xFFFF_FFFF][s], start: [0u32, 100, 7][s], end: [0u32, 3333, 0xFFFF_FFFF][s] },
-            // with three bones the last one has no tracks (mix of populated and empty slots)
-            bone_animations: (0..nb).map(|j| bone(j, if nb == 3 && j == 2 { 0 } else { mask }, keys)).collect(),
+            header: AnimSectionHeader { magic: *b"AFID", id: if s < 3 { [1u32, 60, 0xFFFF_FFFF][s] } else { 100 + s as u32 }, start: [0u32, 100, 7][s % 3], end: [0u32, 3333, 0xFFFF_FFFF][s % 3] },
+            // with three or more bones the third one has no tracks (mix of populated and empty slots)
+            bone_animations: (0..nb).map(|j| bone(j, if nb >= 3 && j == 2 { 0 } else { mask }, keys)).collect(),
         })
         .collect();
     if d[0] == 1 {
@@ -98,15 +101,15 @@ fn diff(r: &mut CaseResult, what: &str, a: &[(&'static str, String)], b: &[(&'st
 
 impl Space for AnimSpace {
     fn len(&self) -> u64 {
-        RADICES.iter().product()
+        self.radices.iter().product()
     }
     fn describe(&self, i: u64) -> Value {
-        let d = vcore::gen::mixed_radix(i, &RADICES);
+        let d = vcore::gen::mixed_radix(i, &self.radices);
         json!({"space": "anim", "format": FORMATS[d[0] as usize], "sections": COUNTS[d[1] as usize], "bones_per_section": COUNTS[d[2] as usize],
-               "tracks": format!("{}{}{}", if d[3] & 1 != 0 { "T" } else { "-" }, if d[3] & 2 != 0 { "R" } else { "-" }, if d[3] & 4 != 0 { "S" } else { "-" }), "keys": COUNTS[d[4] as usize]})
+               "tracks": format!("{}{}{}", if d[3] & 1 != 0 { "T" } else { "-" }, if d[3] & 2 != 0 { "R" } else { "-" }, if d[3] & 4 != 0 { "S" } else { "-" }), "keys": KEYS[d[4] as usize]})
     }
     fn run(&self, i: u64) -> CaseResult {
-        let d = vcore::gen::mixed_radix(i, &RADICES);
+        let d = vcore::gen::mixed_radix(i, &self.radices);
         let mut r = CaseResult::new();
         r.key = format!("anim/{:?}", d);
         r.nontrivial = d[1] != 0;
